@@ -10,6 +10,7 @@ import (
 	"strings"
 	"sync"
 	"sync/atomic"
+	"syscall"
 	"time"
 
 	tea "github.com/charmbracelet/bubbletea"
@@ -111,6 +112,106 @@ func (f *flakyFdFile) Fd() uintptr {
 	return ^uintptr(0)
 }
 
+// failOnceWriter refuses exactly one Write (the first one that contains `mark`) with an error
+// and works again afterwards (a terminal that was briefly unwritable).
+type failOnceWriter struct {
+	b      *safeBuffer
+	mark   string
+	failed chan struct{}
+	mu     sync.Mutex
+	done   bool
+}
+
+func (w *failOnceWriter) Write(p []byte) (int, error) {
+	w.mu.Lock()
+	hit := !w.done && strings.Contains(string(p), w.mark)
+	if hit {
+		w.done = true
+	}
+	w.mu.Unlock()
+	if hit {
+		close(w.failed)
+		return 0, syscall.EAGAIN
+	}
+	return w.b.Write(p)
+}
+
+// modesWriteError: one transient output error in the middle of a run (a frame is refused);
+// whatever then ends the program, the restoring sequences are written and the terminal is
+// restored when Run returns.
+func modesWriteError(out *scenOut, exit string) {
+	ctl := newRecCtl()
+	buf := &safeBuffer{}
+	ctl.viewOf = func(version, ups int) string { return fmt.Sprintf("frame %d\nsecond line\n", ups) }
+	w := &failOnceWriter{b: buf, mark: "frame 2", failed: make(chan struct{})}
+	parent, cancel := context.WithCancel(context.Background())
+	defer cancel()
+	ctl.onUpdate = func(m tea.Msg, v int) tea.Cmd {
+		if u, ok := m.(userMsg); ok && u.Sender == 8 {
+			return func() tea.Msg { panic("verif: panic in a command") }
+		}
+		return nil
+	}
+	run := startProgram(ctl, nil, tea.WithOutput(w), tea.WithInput(nil), tea.WithoutSignalHandler(), tea.WithFPS(120), tea.WithContext(parent),
+		tea.WithAltScreen(), tea.WithMouseCellMotion(), tea.WithReportFocus())
+	desc := "alt screen + mouse cell motion + focus reporting; the output writer refuses one frame (EAGAIN) and works again; exit=" + exit
+	run.p.Send(tea.WindowSizeMsg{Width: 80, Height: 24})
+	run.p.Send(userMsg{0, 0})
+	select {
+	case <-w.failed:
+	case <-time.After(3 * time.Second):
+		out.record("write-error/not-reached/"+exit, desc)
+		run.p.Kill()
+		run.wait(3 * time.Second)
+		return
+	}
+	run.p.Send(userMsg{0, 1})
+	// C12: mode commands after the transient error still reach the terminal
+	spec := modeSpec{hidden: true, alt: true, paste: true, focus: true, m1002: true, m1006: true}
+	for _, name := range []string{"exitalt", "disablemouse", "mouseall", "nofocus", "show"} {
+		for _, mc := range modeCmds {
+			if mc.name == name {
+				run.p.Send(mc.msg())
+				mc.apply(&spec)
+			}
+		}
+	}
+	run.p.Send(userMsg{0, 2}) // (a probe: when Update has seen it the commands before it have been processed)
+	if waitFor(3*time.Second, func() bool { return ctl.log.has("update-exit", "u0.2") }) {
+		t := newVterm(80, 24)
+		t.write([]byte(buf.String()))
+		if got := vtModes(t); got != spec.String() {
+			out.fail(finding{Property: "C12", Class: "new", What: "terminal modes differ from what options and commands asked for (mode commands after a transient output error)", Input: desc + " then exitalt, disablemouse, mouseall, nofocus, show",
+				Expected: spec.String(), Observed: got})
+		}
+	}
+	time.Sleep(20 * time.Millisecond)
+	switch exit {
+	case "quit":
+		run.p.Quit()
+	case "kill":
+		run.p.Kill()
+	case "ctx":
+		cancel()
+	case "panic-update":
+		ctl.panicOn["update:u9.9"] = true
+		go run.p.Send(userMsg{9, 9})
+	case "panic-cmd":
+		go run.p.Send(userMsg{8, 1})
+	}
+	if !run.wait(5 * time.Second) {
+		out.fail(finding{Property: "C05", Class: "new", What: "Run does not return", Input: desc, Observed: goroutineDump()})
+		return
+	}
+	time.Sleep(15 * time.Millisecond)
+	out.record("write-error/"+exit, desc)
+	t := newVterm(80, 24)
+	t.write([]byte(buf.String()))
+	if got, initial := vtModes(t), (modeSpec{}).String(); got != initial {
+		out.fail(finding{Property: "C05", Class: "new", What: "terminal not restored when Run returns after a transient output error", Input: desc, Expected: initial, Observed: got})
+	}
+}
+
 func scenModes(out *scenOut, r *rng, thorough bool) {
 	out.Rule = "all 32 subsets of startup options (alt screen, mouse cell/all motion, no bracketed paste, focus) x seeded histories of 0..12 mode commands x 9 exit kinds (incl. start-up failure after terminal initialisation), modes sampled from the output inside Update after every command and after Run returns; distinct = (options, history, exit kind)"
 	quietStdio()
@@ -119,6 +220,12 @@ func scenModes(out *scenOut, r *rng, thorough bool) {
 	reps := 1
 	if thorough {
 		reps = 8
+	}
+	for _, ex := range []string{"quit", "kill", "ctx", "panic-update", "panic-cmd"} {
+		modesWriteError(out, ex)
+	}
+	for _, cause := range []string{"kill", "ctx"} {
+		termDuringStartup(out, cause, true) // (child process; reports under C04 and C05)
 	}
 	for rep := 0; rep < reps; rep++ {
 		for bits := 0; bits < 32; bits++ {
